@@ -170,13 +170,17 @@ func init() {
 					o  int
 					co string
 				}{{0, ""}, {0, "g"}, {patterns.OptRTL, ""}, {patterns.OptI, ""}} {
-					if tier != "thorough" && cfg.o != 0 && (i+seed)%3 != 0 {
+					if tier != "thorough" && cfg.o != 0 && (i+seed)%4 != 0 {
 						continue
 					}
-					if tier != "thorough" && cfg.co != "" && (i+seed)%2 != 0 {
+					if tier != "thorough" && cfg.co != "" && (i+seed)%3 != 0 {
 						continue
 					}
-					us = append(us, unitsFor("C03", "accel", p, cfg.o, cfg.co, maxN, nil, false)...)
+					mn := maxN
+					if p.Source == "enum" {
+						mn = maxN - 1 // generated patterns are at most 3-4 atoms wide; the shape library gets the extra rune
+					}
+					us = append(us, unitsFor("C03", "accel", p, cfg.o, cfg.co, mn, nil, false)...)
 				}
 			}
 			return us
@@ -708,7 +712,151 @@ func init() {
 			}
 			return us
 		},
-		Rule:      "s = string of n symbolic Unicode scalar values over all of Unicode (surrogates excluded); every feasible path of Escape and Unescape (incl. strconv.FormatInt and the parser's escape scanner) is explored and Unescape(Escape(s)) == s with nil error is asserted; compile leg: n = 1, the pattern ^(?:Escape(s))$ goes through the real parser/reducer/writer with the symbolic literal and MatchRunes(u) <=> u == s is asserted for a second symbolic text u of k <= 2 runes under 6 option sets.",
+		Rule:      "s = string of n symbolic Unicode scalar values over all of Unicode (surrogates excluded); every feasible path of Escape and Unescape (incl. strconv.FormatInt and the parser's escape scanner) is explored and Unescape(Escape(s)) == s with nil error is asserted; compile leg: n = 1, the pattern \\A(?:Escape(s))\\z (anchors that ignore a trailing newline would also accept s+newline) goes through the real parser/reducer/writer with the symbolic literal and MatchRunes(u) <=> u == s is asserted for a second symbolic text u of k <= 2 runes under 6 option sets.",
 		Witnesses: []string{"escaped", "unchanged", "end"},
+	})
+}
+
+// ---------------------------------------------------------------- C16
+
+func init() {
+	register(&propSpec{
+		ID: "C16",
+		Build: func(tier string, seed int) []Unit {
+			var us []Unit
+			for _, m := range []struct {
+				mode string
+				o    int
+			}{{"", 0}, {"i", patterns.OptI}, {"e", patterns.OptE}, {"r", patterns.OptRE2}} {
+				for i, c := range patterns.ClassExprs(m.mode, seed, tier == "thorough" && false) {
+					for _, co := range []string{"", "b"} {
+						if co == "b" && tier != "thorough" && (i+seed)%4 != 0 {
+							continue
+						}
+						us = append(us, Unit{ID: fmt.Sprintf("C16/%s/o%d%s", c.Text, m.o, co), Harness: "class", Domain: "full",
+							Params: map[string]string{"pattern": c.Text, "options": itoa(m.o), "copts": co, "ast": c.Sexpr, "nosummary_charin": "1"}})
+					}
+				}
+			}
+			return us
+		},
+		Rule:      "For each class expression of the class grammar (ranges, negation, nested subtraction, shorthand and Unicode category/script escapes, POSIX names under RE2; <= 3 items, depth <= 2) x {none, IgnoreCase, ECMAScript, RE2} x ASCII bitmap on/off: one symbolic rune r over all of U+0000-U+10FFFF (under IgnoreCase: caseless runes and plain upper/lower pairs; class members with ASCII end-points); every feasible path of CharSet.CharIn (not summarised: ASCII bitmap, linear and binary range search, categories, negation, subtraction) is explored and asserted equal to set algebra over the class AST; the same for the single-character, loop and prefix-set uses through MatchRunes.",
+		Witnesses: []string{"set", "member", "non-member", "end"},
+	})
+}
+
+// ---------------------------------------------------------------- C02, C08, C09 (string level)
+
+func stringUnits(prop, harness string, ps []patterns.Pat, cfgs []struct {
+	o  int
+	co string
+}, modes []string, maxN map[string]int, extra map[string]string, thin func(i, k int) bool) []Unit {
+	var us []Unit
+	for i, p := range ps {
+		for k, cfg := range cfgs {
+			if thin != nil && !thin(i, k) {
+				continue
+			}
+			for _, mode := range modes {
+				for n := 0; n <= maxN[mode]; n++ {
+					params := map[string]string{"pattern": p.Text, "options": itoa(cfg.o), "copts": cfg.co, "n": itoa(n), "mode": mode, "key_extra": mode}
+					for kk, v := range extra {
+						params[kk] = v
+					}
+					us = append(us, Unit{ID: fmt.Sprintf("%s/%s/o%d%s/%s%d", prop, p.Text, cfg.o, cfg.co, mode, n), Harness: harness, Params: params})
+				}
+			}
+		}
+	}
+	return us
+}
+
+var filterShapes = []string{`(?:ab*){2}`, `(c[ab]){2,}`, `(?:ab){2}c`, `\G{2}ab`, `ab(?<=\Gab)`, `(?(?=\G)a|b)`, `abc`, `ab|cd`, `(?i)abc`, `[ab]c`, `a.c`, `\w+@x`, `a+b`, `x*y`, `(a)(b)?`, `(?<o>a)+(?<-o>b)+(?(o)(?!))`, `é+`, `\p{Lu}\w`, `.`, `(?s).`, `[^a]`, `\b\w`, `^a|b$`, `a*`, `\Ga`, `(?<=a)b`, `a{2}`, `(?:a|ab)c`, `\x{10000}`, `�`, `a\z`}
+
+func init() {
+	cfgs := []struct {
+		o  int
+		co string
+	}{{0, ""}, {0, "g"}, {0, "b"}, {patterns.OptRTL, ""}, {patterns.OptI, ""}, {patterns.OptRE2, ""}, {patterns.OptE, ""}}
+	register(&propSpec{
+		ID: "C02",
+		Build: func(tier string, seed int) []Unit {
+			var ps []patterns.Pat
+			for _, t := range filterShapes {
+				ps = append(ps, patterns.FromText(t, 0, "shape:entry"))
+			}
+			ps = dedup(append(ps, patterns.ShapesOf("findmode-prefix", "findmode-set", "zerowidth", "opcodes", "findmode-literalafterloop")...))
+			mx := map[string]int{"s": 3, "b": 3}
+			if tier == "thorough" {
+				mx = map[string]int{"s": 4, "b": 4}
+				ps = dedup(append(ps, enumPats("quick", seed)...))
+			}
+			return stringUnits("C02", "entry", ps, cfgs, []string{"s", "b"}, mx, nil, func(i, k int) bool {
+				return tier == "thorough" || k == 0 || (i+seed)%6 == k-1
+			})
+		},
+		Rule:      "For each (pattern, options, compile options, n): the subject is a string of n symbolic Unicode scalars (mode s) or n raw symbolic bytes incl. invalid UTF-8 (mode b); every feasible path through MatchString, MatchRunes, FindStringMatch, FindRunesMatch, the StartingAt variants, FindNextMatch iteration, FindAllRunesIndex, FindAllStringIndex (rune->byte mapping recomputed by the harness), ReplaceFunc's match enumeration and Split's piece count is explored and their agreement asserted.",
+		Witnesses: []string{"match", "nomatch", "end"},
+	})
+	register(&propSpec{
+		ID: "C08",
+		Build: func(tier string, seed int) []Unit {
+			var ps []patterns.Pat
+			for _, t := range []string{`(?<o>a)+(?<-o>b)+(?(o)(?!))`, `(a)|(b)`, `(?<=(a)b)c`, `(a)*`, `((a)|(b))*c`, `(?:(a)b)+`, `(a)(?=(b))`, `(.)\1`, `(é)+`, `(\w)(\W)?`, `.`, `(?s)(.)+`, `(a*)(b*)`, `()`, `(?<x>a)(?<x>b)?`, `�`, `[^a]+`, `(a)?b`} {
+				ps = append(ps, patterns.FromText(t, 0, "shape:wellformed"))
+			}
+			ps = dedup(append(ps, patterns.ShapesOf("opcodes", "groups")...))
+			mx := map[string]int{"s": 3, "b": 3}
+			if tier == "thorough" {
+				mx = map[string]int{"s": 4, "b": 5}
+				ps = dedup(append(ps, enumPats("quick", seed)...))
+			}
+			return stringUnits("C08", "wellformed", ps, cfgs[:4], []string{"s", "b"}, mx, nil, func(i, k int) bool {
+				return tier == "thorough" || k == 0 || (i+seed)%3 == k-1
+			})
+		},
+		Rule:      "For each (pattern, options, n): subject = n symbolic scalars or n raw symbolic bytes; all matches are enumerated on every feasible path; every capture of every group lies inside the input, group 0 has one capture equal to the match, the embedded capture is the last capture, String()/Runes() equal the addressed slice, ByteRange() equals the UTF-8 byte span recomputed by the harness from the decode widths (each invalid byte one rune).",
+		Witnesses: []string{"match", "group-with-capture", "end"},
+	})
+	register(&propSpec{
+		ID: "C09",
+		Build: func(tier string, seed int) []Unit {
+			var ps []patterns.Pat
+			for _, t := range []string{`a`, `(a)`, `(a)(b)?`, `(?<x>a)|b`, `a*`, `\b`, `(?<2>a)(b)`, `[ab]+`, `(a)|(b)`, `.`, `a|`, `(?<n>.)\k<n>`, `^`, `$`, `(\w)(\w)`} {
+				ps = append(ps, patterns.FromText(t, 0, "shape:replace"))
+			}
+			reps := []string{"<$&>", "$1", "${1}x", "$$", "$`|$'", "$+", "$_", "${x}", "${n}", "$2$1", "x", "$", "$9", "${", "$10", "${2}", ""}
+			maxN := 3
+			if tier == "thorough" {
+				maxN = 4
+			}
+			var us []Unit
+			for i, p := range ps {
+				for k, o := range []int{0, patterns.OptRTL} {
+					for r, rep := range reps {
+						if tier != "thorough" && (i+r+k+seed)%3 != 0 {
+							continue
+						}
+						for n := 0; n <= maxN; n++ {
+							us = append(us, Unit{ID: fmt.Sprintf("C09/%s/o%d/%s/n%d", p.Text, o, rep, n), Harness: "replace",
+								Params: map[string]string{"pattern": p.Text, "options": itoa(o), "copts": "", "n": itoa(n), "rep": rep, "repk": "0", "key_extra": rep}})
+						}
+					}
+					// symbolic replacement strings over the $-grammar alphabet
+					if tier == "thorough" || (i+k+seed)%4 == 0 {
+						for _, rk := range []int{2, 3} {
+							if rk == 3 && tier != "thorough" {
+								continue
+							}
+							us = append(us, Unit{ID: fmt.Sprintf("C09/%s/o%d/sym%d/n2", p.Text, o, rk), Harness: "replace", PathBudget: 60000,
+								Params: map[string]string{"pattern": p.Text, "options": itoa(o), "copts": "", "n": "2", "rep": "", "repk": itoa(rk), "key_extra": "symrep"}})
+						}
+					}
+				}
+			}
+			return us
+		},
+		Rule:      "For each (pattern, direction, replacement, n): subject = string of n symbolic scalars; startAt in [-1,len] and count in [-1,3] are solver variables (case-split); the replacement is a fixed string from the $-grammar or k symbolic bytes over the alphabet {$,{,},0,1,2,a,&,`,',+,_,x}; on every feasible path Replace equals the fold over FindStringMatchStartingAt/FindNextMatch with an independent $-expander, ReplaceFunc with that expander equals Replace, Replace with $& is the identity, Split pieces re-joined with the matched texts rebuild the input.",
+		Witnesses: []string{"replaced", "nothing-replaced", "split-leg", "end"},
 	})
 }
